@@ -20,9 +20,10 @@ def check_model(m, par, chil, nonmand_children) -> bool:
     feats = _index(m)
     n = len(feats)
     leaves = [i for i in range(n) if not chil[i]]
-    if FMCountLeafs().execute(m).get_result() != len(leaves):
+    from .common import result_twice
+    if result_twice(FMCountLeafs(), m) != len(leaves):
         return False
-    got = FMLeafFeatures().execute(m).get_result()
+    got = result_twice(FMLeafFeatures(), m)
     if sorted(id(f) for f in got) != sorted(id(feats[i]) for i in leaves):
         return False
 
@@ -33,23 +34,23 @@ def check_model(m, par, chil, nonmand_children) -> bool:
             out.append(i)
         return out
     depth = max(len(anc(i)) for i in range(n))
-    if FMMaxDepthTree().execute(m).get_result() != depth:
+    if result_twice(FMMaxDepthTree(), m) != depth:
         return False
     for i in range(n):
         op = FMFeatureAncestors()
         op.set_feature(feats[i])
-        res = op.execute(m).get_result()
+        res = result_twice(op, m)
         if [id(f) for f in res] != [id(feats[a]) for a in anc(i)]:
             return False
     nonleaf = [i for i in range(n) if chil[i]]
-    bf = FMAverageBranchingFactor().execute(m).get_result()
+    bf = result_twice(FMAverageBranchingFactor(), m)
     if nonleaf:
         if bf != round(sum(len(chil[i]) for i in nonleaf) / len(nonleaf), 2):
             return False
     else:
         if not isinstance(bf, (int, float)):
             return False
-    vps = FMVariationPoints().execute(m).get_result()
+    vps = result_twice(FMVariationPoints(), m)
     want = {i: nonmand_children[i] for i in range(n) if nonmand_children[i]}
     if sorted(id(k) for k in vps.keys()) != sorted(id(feats[i]) for i in want):
         return False
